@@ -6,25 +6,26 @@ import HLV.Model.Env
 namespace HLV
 
 -- @theorem C12_no_leak_under_any_number_of_faults : for every bound n on panicking raw operations (1 = one-shot, any n = persistent), every well-typed program keeps the hold discipline: releases only of held locks, nothing held when a call has ended
-theorem C12_no_leak_under_any_number_of_faults (n : Nat) (C : Ctx) (prog : List Stmt)
-    (hok : ProgOK C prog) (u : UserSt)
+theorem C12_no_leak_under_any_number_of_faults (n : Nat) (ro : RankOpt) (C : Ctx) (prog : List Stmt)
+    (hok : ProgOK ro C prog) (u : UserSt)
     {tr : List (Op × Resp)} {out : Outcome Unit UserSt} (hp : Path (program C prog u) tr out) :
-    TraceOK (HoldSpec n) {} tr :=
-  program_traces n C prog hok u hp
+    TraceOK (HoldSpec n ro) {} tr :=
+  program_traces n ro C prog hok u hp
 
 -- @theorem C12_happylock_never_kills_a_lock_itself : no execution of any well-typed program issues `RawLock::poison` on any lock: a lock becomes unusable only through the panic of its own operation
-theorem C12_happylock_never_kills_a_lock_itself (n : Nat) (C : Ctx) (prog : List Stmt)
-    (hok : ProgOK C prog) (u : UserSt)
+theorem C12_happylock_never_kills_a_lock_itself (n : Nat) (ro : RankOpt) (C : Ctx) (prog : List Stmt)
+    (hok : ProgOK ro C prog) (u : UserSt)
     {tr₁ tr₂ : List (Op × Resp)} {x : LockId} {r : Resp} {out : Outcome Unit UserSt}
     (hp : Path (program C prog u) (tr₁ ++ (.kill x, r) :: tr₂) out)
-    (ha : Admissible (HoldSpec n) {} tr₁) : False :=
-  program_op_ok n C prog hok u hp ha
+    (ha : Admissible (HoldSpec n ro) {} tr₁) : False :=
+  program_op_ok n ro C prog hok u hp ha
 
 -- @theorem C12_acquisition_unwinds_with_holds_as_before : if a blocking acquisition of any shape unwinds (a raw operation panicked at any index, in any round), everything it had taken has been released or is stuck on a killed lock: the holds are exactly as before the call
-theorem C12_acquisition_unwinds_with_holds_as_before (n : Nat) (W : World) (S : Shape)
-    (hl : lockable S = true) (m : Mode) (g : HG) (hd : g.depth = 0) :
-    wp (HoldSpec n) ((toRaw W S).acq m) (fun _ _ => True) (fun _ g' => g'.held = g.held) g := by
-  apply (toRaw_isLock (n := n) W S hl).acq m g _ _ hd trivial
+theorem C12_acquisition_unwinds_with_holds_as_before (n : Nat) (ro : RankOpt) (W : World) (S : Shape)
+    (hl : lockable S = true) (hk : ShapeOK ro W S) (m : Mode) (g : HG) (hd : g.depth = 0)
+    (hlow : LowFp ro g.held (shapeFp W S m)) :
+    wp (HoldSpec n ro) ((toRaw W S).acq m) (fun _ _ => True) (fun _ g' => g'.held = g.held) g := by
+  apply (toRaw_isLock (n := n) (ro := ro) W S hl hk).acq m g _ _ hd hlow trivial
   intro g' a _ _; exact a
 
 /-! the raw-lock table: what a fault does -/
